@@ -20,7 +20,7 @@ pub mod io {
     }
     pub type Result<T> = core::result::Result<T, Error>;
     pub enum SeekFrom { Start(u64), End(i64), Current(i64) }
-    pub use super::{Read, Write, Seek};
+    pub use super::{Read, Write, Seek, Cursor};
 }
 
 pub struct LittleEndian;
@@ -252,3 +252,24 @@ pub trait WriteBytesExt: Write {
     { unimplemented!() }
 }
 impl<W: Write + ?Sized> WriteBytesExt for W {}
+
+// io::Cursor over a byte vector: a device that never faults (TRUSTED: std::io::Cursor semantics)
+pub struct Cursor<T> { pub inner: T, pub pos: u64 }
+impl<T> Cursor<T> {
+    pub fn new(inner: T) -> (r: Cursor<T>) ensures r.inner == inner, r.pos == 0 { Cursor { inner, pos: 0 } }
+    pub fn position(&self) -> (r: u64) ensures r == self.pos { self.pos }
+}
+impl<'a> Dev for Cursor<&'a Vec<u8>> {
+    open spec fn g_dev(&self) -> bool { true }
+    open spec fn g_bytes(&self) -> Seq<u8> { self.inner@ }
+    open spec fn g_pos(&self) -> int { self.pos as int }
+    open spec fn g_fault(&self) -> bool { false }
+}
+impl<'a> Read for Cursor<&'a Vec<u8>> {
+    #[verifier::external_body]
+    fn read(&mut self, buf: &mut [u8]) -> (r: io::Result<usize>) { unimplemented!() }
+}
+impl<'a> Seek for Cursor<&'a Vec<u8>> {
+    #[verifier::external_body]
+    fn seek(&mut self, p: io::SeekFrom) -> (r: io::Result<u64>) { unimplemented!() }
+}
